@@ -84,6 +84,10 @@ fn c11_oracle(r: &mut Report, store: &Store, u: &resolver::StoreUpdates, mode_of
         if !mode_of(name).prune_exemptions && !regen {
             for o in &old {
                 let oc = spec.cl(&o.criteria);
+                // (an exemption that lists nothing means nothing; the update drops it)
+                if oc == Some(0) {
+                    continue;
+                }
                 if !new.iter().any(|e| e.version == o.version && spec.cl(&e.criteria) == oc && e.suggest == o.suggest) {
                     r.fail("oracle", "C11/exemption-touched-without-flag", format!("{name}: exemption {o:?} changed meaning although pruning of exemptions is off"), case);
                 }
@@ -91,7 +95,7 @@ fn c11_oracle(r: &mut Report, store: &Store, u: &resolver::StoreUpdates, mode_of
         }
     }
     for (name, old) in &store.config.exemptions {
-        if !mode_of(name).prune_exemptions && !old.is_empty() && !u.exemptions.contains_key(name) {
+        if !mode_of(name).prune_exemptions && old.iter().any(|o| spec.cl(&o.criteria) != Some(0)) && !u.exemptions.contains_key(name) {
             r.fail("oracle", "C11/exemption-touched-without-flag", format!("{name}: exemptions dropped although pruning of exemptions is off"), case);
         }
     }
